@@ -6,7 +6,7 @@
 From Coq Require Import List Arith NArith Bool String.
 From Verif Require Import Lib.Sched Kv.KeyOrd Kv.AList Kv.Spec Kv.Mem Kv.Sql Kv.Skel Kv.Refine
   Kv.Facts Kv.SeqFacts Kv.KvGen Kv.KvCorr Kv.Atomic Kv.AtomicSql Kv.AtomicCor Kv.AtomicCorr
-  Kv.AtomicGen Gen.KvSql Gen.KvMemSkel.
+  Kv.AtomicPg Kv.AtomicGen Gen.KvSql Gen.KvMemSkel.
 Import ListNotations.
 
 Notation mreachable := (Sched.reachable table loc result).
@@ -264,6 +264,30 @@ Theorem C06_sql_reserved_unique : forall bprog db0 cfg,
 Proof. exact gen_sql_reserved_unique. Qed.
 Print Assumptions C06_sql_reserved_unique.
 
+(** ** PostgreSQL (cannot run here; a model of its documented READ COMMITTED
+    rules, see Kv/AtomicPg.v).  The source has the shape that loses updates
+    (open finding); with SELECT ... FOR UPDATE every schedule of mutates would
+    be serializable. *)
+Theorem C06_psql_mutate_shape :
+  gen_psql_mutate_begin = "b.db.Begin()"%string /\
+  gen_psql_mutate_select = "select v from %s where k=$1"%string /\
+  gen_psql_mutate_select_locks_row = false.
+Proof. exact gen_psql_mutate_shape. Qed.
+Print Assumptions C06_psql_mutate_shape.
+
+Theorem C06_psql_for_update_serializable : forall prog db0 cfg,
+  preachable true (pinit prog db0) cfg ->
+  run mem_step db0 (pops (pdone cfg)) = (pdb cfg, presults (pdone cfg)).
+Proof. exact pg_for_update_serializable. Qed.
+Print Assumptions C06_psql_for_update_serializable.
+
+(** the property as it would read for psqlKV.mutate as written: NOT proved,
+    and refuted in the model by [C06_psql_read_committed_lost_update] *)
+Definition stmt_psql_mutate_serializable : Prop :=
+  forall prog db0 cfg,
+    preachable gen_psql_mutate_select_locks_row (pinit prog db0) cfg ->
+    run mem_step db0 (pops (pdone cfg)) = (pdb cfg, presults (pdone cfg)).
+
 (** ** The history checker used on recorded runs is sound *)
 Theorem C06_lin_sound : forall fuel pending s final,
   lin fuel pending s final = true ->
@@ -404,3 +428,21 @@ Example C06_nonvacuous_checker :
   accepts_history [UAdd ex_key [48%N]]
     [mkH 1 2 (UGet ex_key) (RBytes [49%N]); mkH 3 4 incr RUnit] [(ex_key, Some [49%N])] = false.
 Proof. vm_compute. repeat split. Qed.
+
+(** READ COMMITTED, SELECT without row lock: both transactions read "0", the
+    first writes "1" and commits, the second writes its own "1" and commits.
+    Two successful increments, counter 1 - and the statement above is false. *)
+Example C06_psql_read_committed_lost_update :
+  exists cfg,
+    preachable false (pinit pg_prog pg_db0) cfg /\
+    presults (pdone cfg) = [RUnit; RUnit] /\
+    pdb cfg = [(pg_key, ([], [49%N]))] /\
+    fst (run mem_step pg_db0 (pops (pdone cfg))) = [(pg_key, ([], [50%N]))].
+Proof. exact pg_rc_lost_update. Qed.
+
+Example C06_stmt_psql_mutate_serializable_refuted : ~ stmt_psql_mutate_serializable.
+Proof.
+  intros H. destruct pg_rc_lost_update as (cfg & Hr & _ & Hdb & Hseq).
+  specialize (H pg_prog pg_db0 cfg Hr). rewrite H in Hseq. cbn [fst] in Hseq.
+  rewrite Hdb in Hseq. discriminate.
+Qed.
